@@ -9,6 +9,7 @@ import (
 	"path/filepath"
 	"strings"
 	"sync"
+	"syscall"
 	"time"
 )
 
@@ -76,6 +77,17 @@ func (e *Engine) translateFacts() (lemmas []*Obligation) {
 				}
 			}
 			axText = wrap(rest)
+			if fa.Kind == "axiom" {
+				// the side facts of an axiom (postconditions of the assumed
+				// library functions its terms mention) are themselves assumed:
+				// the axiom must not become vacuous where they are not known
+				body := mkAnd(append(append([]string{}, rest...), v.S)...)
+				if len(qs) > 0 {
+					axText = fmt.Sprintf("(forall (%s) %s)", strings.Join(qs, " "), body)
+				} else {
+					axText = body
+				}
+			}
 		}()
 		if c.limit != "" {
 			fmt.Fprintf(os.Stderr, "govc: fact %s: %s\n", fa.Name, c.limit)
@@ -332,9 +344,16 @@ type solveResult struct {
 
 func runSolver(ctx context.Context, sp solverSpec, timeoutS int, file string) solveResult {
 	start := time.Now()
-	cctx, cancel := context.WithTimeout(ctx, time.Duration(timeoutS+2)*time.Second)
+	// The budget is CPU time (ulimit -t), so that a loaded machine does not turn
+	// provable obligations into timeouts; wall-clock time is only capped at six
+	// times the budget as a safety net.  The solvers' own (wall-clock) limits are
+	// set to that cap.
+	wall := timeoutS * 6
+	cctx, cancel := context.WithTimeout(ctx, time.Duration(wall+2)*time.Second)
 	defer cancel()
-	cmd := exec.CommandContext(cctx, sp.bin, sp.args(timeoutS, file)...)
+	argv := append([]string{sp.bin}, sp.args(wall, file)...)
+	script := fmt.Sprintf("ulimit -t %d; exec \"$@\"", timeoutS)
+	cmd := exec.CommandContext(cctx, "sh", append([]string{"-c", script, "sh"}, argv...)...)
 	out, err := cmd.CombinedOutput()
 	secs := time.Since(start).Seconds()
 	text := string(out)
@@ -350,6 +369,11 @@ func runSolver(ctx context.Context, sp solverSpec, timeoutS int, file string) so
 	}
 	if cctx.Err() != nil {
 		return solveResult{sp.name, "timeout", text, secs}
+	}
+	if ee, ok := err.(*exec.ExitError); ok && !ee.Success() {
+		if ws, ok := ee.Sys().(syscall.WaitStatus); ok && ws.Signaled() && (ws.Signal() == syscall.SIGXCPU || ws.Signal() == syscall.SIGKILL) {
+			return solveResult{sp.name, "timeout", text, secs} // CPU budget used up
+		}
 	}
 	if strings.Contains(text, "interrupted") || strings.Contains(text, "timeout") {
 		return solveResult{sp.name, "timeout", text, secs}
